@@ -1396,6 +1396,8 @@ func wsParent(c *Ctx, prop string) {
 	}
 	if prop == "C13" {
 		wsStress(c, c.N(3000, 300000))
+	} else {
+		wsStress(c, 0) // the deterministic probes only
 	}
 }
 
